@@ -1493,7 +1493,131 @@ fn g9_folds_and_families(kind: Kind, level: usize, f: &mut dyn FnMut(&[u8])) {
             }
         }
     }
-    let sizes: &[usize] = if level == 0 { &[64] } else if level == 1 { &[64, 300, 1500] } else { &[64, 300, 1500, 6000] };
+    // counter wrap points: repeated constructs exactly 255 / 256 / 257 (and 511..513) times (a u8 /
+    // narrow counter or flag accumulator wraps there)
+    {
+        let counts: &[usize] = if level == 0 { &[256] } else if level == 1 { &[255, 256, 257, 512] } else { &[255, 256, 257, 511, 512, 513, 768, 1024] };
+        for &c in counts {
+            let mut push = |body: Vec<u8>| {
+                let mut m = Vec::new();
+                m.extend_from_slice(&body);
+                f(&m);
+            };
+            let rep = |u: &[u8], c: usize| -> Vec<u8> { u.iter().cycle().take(u.len() * c).copied().collect() };
+            match kind {
+                Kind::Resp => {
+                    // c obs-text bytes in the reason (alone and scattered), c spaces, c fold lines, c headers
+                    for unit in [&b"\xe9"[..], b"a\xff", b"\xc3\xa9"] {
+                        let mut m = b"HTTP/1.1 200 ".to_vec();
+                        m.extend(rep(unit, c));
+                        m.extend_from_slice(b"\r\nA: b\r\n\r\n");
+                        push(m);
+                    }
+                    let mut m = b"HTTP/1.1".to_vec();
+                    m.extend(rep(b" ", c));
+                    m.extend_from_slice(b"200");
+                    m.extend(rep(b" ", c));
+                    m.extend_from_slice(b"OK\r\n\r\n");
+                    push(m);
+                    let mut m = b"HTTP/1.1 200 OK\r\nF: a\r\n".to_vec();
+                    m.extend(rep(b" b\r\n", c));
+                    m.extend_from_slice(b"\r\n");
+                    push(m);
+                    let mut m = b"HTTP/1.1 200 OK\r\n".to_vec();
+                    m.extend(rep(b"Bad Name\r\n", c));
+                    m.extend_from_slice(b"Good: y\r\n\r\n");
+                    push(m);
+                }
+                Kind::Req => {
+                    let mut m = rep(b"\r\n", c);
+                    m.extend_from_slice(b"GET / HTTP/1.1\r\n\r\n");
+                    push(m);
+                    let mut m = b"GET".to_vec();
+                    m.extend(rep(b" ", c));
+                    m.extend_from_slice(b"/");
+                    m.extend(rep(b" ", c));
+                    m.extend_from_slice(b"HTTP/1.1\r\n\r\n");
+                    push(m);
+                    let mut m = b"GET /".to_vec();
+                    m.extend(rep("\u{e9}".as_bytes(), c));
+                    m.extend_from_slice(b" HTTP/1.1\r\n\r\n");
+                    push(m);
+                    let mut m = b"GET / HTTP/1.1\r\n".to_vec();
+                    m.extend(rep(b"a:b\r\n", c));
+                    m.extend_from_slice(b"\r\n");
+                    push(m);
+                    let mut m = b"GET / HTTP/1.1\r\nN:".to_vec();
+                    m.extend(rep(b" \t", c));
+                    m.extend_from_slice(b"v");
+                    m.extend(rep(b"\t ", c));
+                    m.extend_from_slice(b"\r\n\r\n");
+                    push(m);
+                }
+                Kind::Hdr => {
+                    let mut m = rep(b"a:b\n", c);
+                    m.extend_from_slice(b"\n");
+                    push(m);
+                    let mut m = b"N: ".to_vec();
+                    m.extend(rep(b"\xff", c));
+                    m.extend_from_slice(b"\r\n\r\n");
+                    push(m);
+                }
+                Kind::Chunk => {}
+            }
+        }
+    }
+    // whitespace prefixes / delimiters: every string over {SP, HTAB} up to length 5 in front of the
+    // reason, in front of / behind a header value, and between method and target
+    {
+        let maxw = if level == 0 { 3 } else { 5 };
+        for k in 0..=maxw {
+            for bits in 0..(1u32 << k) {
+                let ws: Vec<u8> = (0..k).map(|i| if bits >> i & 1 == 1 { b'\t' } else { b' ' }).collect();
+                match kind {
+                    Kind::Resp => {
+                        for phrase in [&b"OK"[..], b"", b"a b"] {
+                            let mut m = b"HTTP/1.1 200 ".to_vec();
+                            m.extend_from_slice(&ws);
+                            m.extend_from_slice(phrase);
+                            m.extend_from_slice(b"\r\nA: b\r\n\r\n");
+                            f(&m);
+                        }
+                        let mut m = b"HTTP/1.1 200 OK\r\nName".to_vec();
+                        m.extend_from_slice(&ws);
+                        m.extend_from_slice(b":");
+                        m.extend_from_slice(&ws);
+                        m.extend_from_slice(b"v\r\n\r\n");
+                        f(&m);
+                    }
+                    Kind::Req => {
+                        let mut m = b"GET ".to_vec();
+                        m.extend_from_slice(&ws);
+                        m.extend_from_slice(b"/p ");
+                        m.extend_from_slice(&ws);
+                        m.extend_from_slice(b"HTTP/1.1\r\n");
+                        m.extend_from_slice(&ws);
+                        m.extend_from_slice(b"H: v\r\n\r\n");
+                        f(&m);
+                    }
+                    Kind::Hdr => {
+                        let mut m = b"N:".to_vec();
+                        m.extend_from_slice(&ws);
+                        m.extend_from_slice(b"v");
+                        m.extend_from_slice(&ws);
+                        m.extend_from_slice(b"\r\n\r\n");
+                        f(&m);
+                    }
+                    Kind::Chunk => {
+                        let mut m = b"1f".to_vec();
+                        m.extend_from_slice(&ws);
+                        m.extend_from_slice(b";x\r\n");
+                        f(&m);
+                    }
+                }
+            }
+        }
+    }
+    let sizes: &[usize] = if level == 0 { &[64, 300, 1500] } else if level == 1 { &[64, 300, 1500] } else { &[64, 300, 1500, 6000] };
     for fam in 0..G7_FAMILIES {
         for &n in sizes {
             let s = g7(fam, n);
